@@ -200,6 +200,9 @@ Definition fmt_of (id : N) : fmt :=
   | 6 => dposblock_fmt | 7 => confirm_fmt | 8 => proposal_fmt | 9 => vote_fmt
   | 10 => block_fmt (* Block.DeserializeTxLoc *)
   | 11 => txu_fmt   (* GetTransactionByBytes + DeserializeUnsigned *)
+  | 20 => FVarUint            (* common.ReadVarUint / WriteVarUint directly *)
+  | 21 => FVarBytes 33        (* common.ReadVarBytes(r, 33, _) / WriteVarBytes directly *)
+  | 22 => FVarString          (* common.ReadVarString / WriteVarString directly *)
   | 30 => output_fmt true | 31 => output_fmt false
   | 32 => attr_fmt | 33 => input_fmt | 34 => program_fmt
   | 35 => detailedvote_fmt
@@ -227,7 +230,7 @@ Definition fmt_of (id : N) : fmt :=
   end.
 
 Definition format_ids : list N :=
-  [1; 2; 3; 4; 5; 6; 7; 8; 9; 10; 11; 30; 31; 32; 33; 34; 35;
+  [1; 2; 3; 4; 5; 6; 7; 8; 9; 10; 11; 20; 21; 22; 30; 31; 32; 33; 34; 35;
    300; 301; 302; 303; 304; 305; 307; 308; 309; 310; 311; 312; 313; 314; 315;
    401; 402; 403; 404; 405; 406; 407; 408; 409; 410; 411; 412; 413; 414; 415; 416; 417; 418]
   ++ map (fun t => 100 + t) tx_types ++ map (fun t => 250 + t) out_types.
